@@ -353,3 +353,63 @@ def rule_no_mutex(ctx: Ctx, out: Collector) -> None:
                     out.bad('CC-6', cons, ev.where(), 'an explicitly acquired lock / semaphore is held while node code runs')
     if n == 0:
         raise AnalysisError('no with-region found on the run path (CC-6 anchor vanished)')
+
+
+def rule_wrapper_kind(ctx: Ctx, out: Collector) -> None:
+    """CC-7: run_node chooses the execution mode from `iscoroutinefunction(<run method>)`.  A function installed as the
+    `process` of a dynamically created node class (build_node) must therefore be a coroutine function exactly when the
+    method it wraps is one: an `async def` wrapper is defined only under iscoroutinefunction(<wrapped>) and a plain one
+    only under its negation.  Otherwise a synchronous body is awaited on the event-loop thread and its siblings wait."""
+    from ..guards import guards
+    n = 0
+    for unit in ctx.p.functions.values():
+        if unit.parent is not None or isinstance(unit.node, ast.Lambda):
+            continue
+        env = FuncEnv.of(ctx.p, unit)
+        for node in env.own_nodes():
+            if not (isinstance(node, ast.Call) and isinstance(node.func, ast.Name) and node.func.id == 'type' and len(node.args) == 3):
+                continue
+            ns = node.args[2]
+            if isinstance(ns, ast.Name):
+                ds = env.local_defs().get(ns.id, [])
+                if len(ds) == 1 and ds[0][0] == 'assign':
+                    ns = ds[0][1]
+                elif len(ds) == 1 and ds[0][0] == 'annassign' and ds[0][2] is not None:
+                    ns = ds[0][2]
+            pairs = []
+            if isinstance(ns, ast.Dict):
+                pairs = [(k.value, v) for k, v in zip(ns.keys, ns.values) if isinstance(k, ast.Constant)]
+            elif isinstance(ns, ast.Call) and isinstance(ns.func, ast.Name) and ns.func.id == 'dict':
+                pairs = [(k.arg, k.value) for k in ns.keywords if k.arg is not None]
+            else:
+                raise AnalysisError(f'{unit.fid}: the namespace of the created class is {unparse(ns)[:60]} (CC-7 cannot read it)')
+            # later item stores into the namespace / setattr on the class would also install a process: none accepted silently
+            for k, v in pairs:
+                if k != 'process':
+                    continue
+                if not isinstance(v, ast.Name):
+                    raise AnalysisError(f'{unit.fid}: the process attribute of the created class is {unparse(v)} (CC-7 cannot classify it)')
+                defs = [d for d in env.local_defs().get(v.id, []) if d[0] == 'def']
+                if not defs:
+                    raise AnalysisError(f'{unit.fid}: {v.id} is not a local function (CC-7)')
+                for d in defs:
+                    w = d[1]
+                    n += 1
+                    gs = guards(unit.node, w.node)
+                    kind_guard = None
+                    for e, pol in gs:
+                        if isinstance(e, ast.Call) and (dotted(e.func) or '').split('.')[-1] == 'iscoroutinefunction':
+                            kind_guard = pol
+                    cons = f'{unit.module.name}::{unit.qualname}::{"async " if w.is_async else ""}def {w.name} installed as process [wrapper kind follows the wrapped method]'
+                    if kind_guard is not None and kind_guard == w.is_async:
+                        out.ok('CC-7', cons, ctx.p.loc(unit, w.node),
+                               f'{"coroutine" if w.is_async else "plain"} wrapper only when iscoroutinefunction(<wrapped>) is {kind_guard}')
+                    else:
+                        out.bad('CC-7', cons, ctx.p.loc(unit, w.node),
+                                f'the {"coroutine" if w.is_async else "plain"} wrapper {w.name} is installed as the node\'s process '
+                                f'{"whatever the wrapped method is" if kind_guard is None else "for the opposite kind of method"}: run_node '
+                                f'picks the execution mode from iscoroutinefunction(process), so a synchronous body is run on the event-loop '
+                                f'thread (its pool tags are ignored) and independent siblings are serialised',
+                                props={'C06', 'C17'})
+    if n == 0:
+        raise AnalysisError('no dynamically created node class with a process wrapper found (CC-7 anchor vanished)')
